@@ -130,7 +130,10 @@ func firstErrorLine(out string) string {
 		if strings.Contains(l, ".go:") {
 			// drop line:col, keep the message
 			if i := strings.Index(l, ": "); i >= 0 {
-				return strings.TrimSpace(l[i+2:])
+				l = strings.TrimSpace(l[i+2:])
+			}
+			if i := strings.Index(l, " (/"); i >= 0 { // environment-specific paths
+				l = l[:i]
 			}
 			return l
 		}
@@ -421,6 +424,8 @@ func (prop) Run(raw json.RawMessage, scratch string) core.Result {
 	}
 	if in.shadowClass() {
 		res.Class = knownClass
+	} else {
+		res.Class = in.defectClass()
 	}
 	res.Observed = obs
 
